@@ -426,9 +426,9 @@ func (t *State) PlayForMiner(blockid []byte) error {
 	// 更新不可逆区块高度
 	curIrreversibleBlockHeight := t.meta.GetIrreversibleBlockHeight()
 	curIrreversibleSlideWindow := t.meta.GetIrreversibleSlideWindow()
-	updateErr := t.meta.UpdateNextIrreversibleBlockHeight(block.Height, curIrreversibleBlockHeight, curIrreversibleSlideWindow, batch)
-	if updateErr != nil {
-		return updateErr
+	err = t.meta.UpdateNextIrreversibleBlockHeight(block.Height, curIrreversibleBlockHeight, curIrreversibleSlideWindow, batch)
+	if err != nil {
+		return err
 	}
 	//更新latestBlockid
 	err = t.updateLatestBlockid(block.Blockid, batch, "failed to save block")
